@@ -37,7 +37,7 @@ func init() {
 		},
 		Cases: func(tier string, seed uint64) int {
 			if tier == "thorough" {
-				return 4000000
+				return 24000000
 			}
 			return 250000
 		},
